@@ -67,8 +67,11 @@ def make_functions(graph):
                 term = _w[p] * v
                 out = term if out is None else out + term
             return out + _c
-        src = f"def _f(*, {', '.join(ps)}):\n    return _impl({', '.join(f'{p}={p}' for p in ps)})\n"
-        ns = {"_impl": f}
+        # the last of several parents is declared with a default value (a legal definition: the value of the state is what
+        # counts - a dependency is a dependency whether or not the definition names a default)
+        sig = [p if not (len(ps) >= 2 and p == ps[-1]) else f"{p}=_DEFAULT" for p in ps]
+        src = f"def _f(*, {', '.join(sig)}):\n    return _impl({', '.join(f'{p}={p}' for p in ps)})\n"
+        ns = {"_impl": f, "_DEFAULT": torch.tensor(12345.0, dtype=torch.float64)}
         exec(src, ns)
         fns[n] = ns["_f"]
     return fns
@@ -580,9 +583,32 @@ def _set_invs(cfg_path, pid):
         f.write("\n".join(lines + INVS[pid]) + "\n")
 
 
+def declared_graph_mismatch(gname):
+    """The graph the library derives from the toy definitions must be the declared one (every parameter of a definition is a
+    dependency, with or without a default value).  Returns None or a description."""
+    graph = GRAPHS[gname]
+    try:
+        dag, _ = build_dag(graph)
+    except Exception as e:  # noqa: BLE001 - a legal declaration refused: a verdict about the library, not about the harness
+        return f"graph {gname} is refused: {type(e).__name__}: {str(e)[:200]}"
+    got = {n: sorted(dag.direct_ancestors.get(n, ())) for n in graph["parents"]}
+    want = {n: sorted(ps) for n, ps in graph["parents"].items()}
+    if got != want:
+        return f"graph {gname}: dependencies derived by the library {got} differ from the definitions {want}"
+    return None
+
+
 def run_toy(ctx, pid, plan, sim_traces, sim_depth):
     """plan: list of (graph name, tag, gen_mc kwargs, coverage?)."""
     import random
+    broken = set()
+    for gname in sorted({p[0] for p in plan}):
+        msg = declared_graph_mismatch(gname)
+        if msg:
+            broken.add(gname)
+            ctx.violation({"check": "toy_graph", "graph": gname}, f"State / VariablesDAG disagree with StateCache.tla before any operation: {msg}",
+                          replay={"graph": gname, "message": msg})
+    plan = [p for p in plan if p[0] not in broken]
     for gname, tag, kw, cov in plan:
         graph = GRAPHS[gname]
         rp = Replayer(graph)
